@@ -147,8 +147,13 @@ func c02Gen(rt *rapid.T) wProg {
 			}
 		case y >= 92:
 			// a publish with an uploaded attachment while the store fails at one of its writes
-			p.Ops = append(p.Ops, wOp{K: "upload", S: s}, wOp{K: "fault", N: gInt(rt, 1, 4, "k"), A: gPick(rt, []string{"", "FileLinkAttachments", "SubsUpdate", "MessageSave"}, "m")},
-				wOp{K: "pub", S: s, T: topicFor(s), X: []string{"$file0"}}, wOp{K: "pub", S: s, T: topicFor(s)})
+			fm := gPick(rt, []string{"", "FileLinkAttachments", "FileLinkAttachments", "SubsUpdate", "MessageSave"}, "m")
+			fk := 1
+			if fm == "" {
+				fk = gInt(rt, 1, 4, "k")
+			}
+			p.Ops = append(p.Ops, wOp{K: "upload", S: s}, wOp{K: "sub", S: s, T: "g0"}, wOp{K: "fault", N: fk, A: fm},
+				wOp{K: "pub", S: s, T: "g0", X: []string{"$file0"}}, wOp{K: "pub", S: s, T: "g0"})
 		case y < 8 && p.Cfg.Root:
 			// P2P: one participant unsubscribes, the topic unloads, the other one is suspended, the first
 			// comes back (the topic is loaded with one subscription missing) and publishes
